@@ -54,4 +54,16 @@ Reach(S, k) == IF k = 0 THEN S ELSE Reach(S \cup UNION {ref[i] \cap (1..N) : i \
 Cyclic == \E i \in 1..N : i \in Reach(ref[i] \cap (1..N), N)
 Emit == phase = "done" => PrintT(ToJson([kind |-> Kind, n |-> N, ref |-> ref, cyclic |-> Cyclic,
                                           total |-> drawn[1] + (IF N >= 2 THEN drawn[2] ELSE 0) + (IF N >= 3 THEN drawn[3] ELSE 0)]))
+
+----------------------------------------------------------------------------
+(* Instances of one definition are independent: what an instance draws depends on the definition and on the  *)
+(* attributes of ITS <use> only. PairInit enumerates two instances of one target (a <symbol>, a nested <svg> *)
+(* or a <g>) with the attribute sets below; the harness checks that drawing both equals drawing each alone,  *)
+(* in either order (the definition is not modified by being instantiated).                                   *)
+UseAttrs == {"plain", "sized", "moved", "sized-moved", "wide"}
+PairTargets == {"symbol", "svg", "g", "symbol-sized"}
+PairInit == /\ \E t \in PairTargets, a \in UseAttrs, b \in UseAttrs : ref = <<t, a, b>>
+            /\ stack = <<>> /\ drawn = <<>> /\ phase = "pair"
+Stutter == UNCHANGED vars
+EmitPair == phase = "pair" => PrintT(ToJson([target |-> ref[1], a |-> ref[2], b |-> ref[3]]))
 =============================================================================
